@@ -154,7 +154,15 @@ class H(S.Hooks):
                     op[0], result, type(e).__name__, e), hist)
                 self.broken = True
                 return
-            if after != self.desc:
+            # "leaves every definition (spaces, bases, cells and formulas, references, inputs) exactly as it was, and all
+            # values stay correct": a COMPUTED value that a refused edit discarded (the request was undone after a
+            # namespace had notified) is not a changed definition and not an incorrect value - it is computed again on
+            # demand.  What may not happen: an input lost, a value changed, a value appearing.  (An earlier version
+            # reported discarded computed values too: more than the property states - DESIGN 6.4, false alarms.)
+            expected = _without_lost_computed(self.desc, after)
+            if expected != self.desc:
+                stats["refusals_that_discarded_computed_values"] += 1
+            if after != expected:
                 key = classify(live, op, result, self.desc, after, self.was_sourceless)
                 out.fail("%s raised (%s) but changed the model: %s" % (op[0], result, _diff(self.desc, after)), hist,
                          key=key)
@@ -206,6 +214,27 @@ class HB(H):
 
     def end(self, live, ops, out, stats):
         self.mech.finish(out, lambda kk: S.hist_json(ops, kk), stats)
+
+
+def _without_lost_computed(before, after):
+    """`before` without the computed values (entries ending in C; inputs end in I) of cells that `after` still has
+    with otherwise the same description and no such entry: what a refused edit may legitimately leave"""
+    import copy
+    exp = copy.deepcopy(before)
+    try:
+        for p, sd in exp["spaces"].items():
+            ad = after["spaces"].get(p)
+            if not isinstance(ad, dict):
+                continue
+            for cn, cd in (sd.get("cells") or {}).items():
+                acd = (ad.get("cells") or {}).get(cn)
+                if not isinstance(acd, dict) or "values" not in cd or "values" not in acd:
+                    continue
+                have = set(acd["values"])
+                cd["values"] = [v for v in cd["values"] if v in have or not str(v).endswith("C")]
+    except Exception:   # noqa: an unexpected shape: compare strictly
+        return before
+    return exp
 
 
 def _diff(a, b):
